@@ -99,6 +99,11 @@ CLAIMS = {
   'design_ref': 'DESIGN.md section 4 / C09',
   'note': 'Assumed: POSIX os.path (join/splitext/normpath axioms), re.split pieces contain no separator, the numbered-pattern regex axiom (bounded-checked against CPython re with the PATTERN literal read from the source, not counted as proved), single process file system. One defect fixed (d264f83: ".." kept by split_remote_path). Known findings (3 obligations): chains NOT ending with NumberDuplicateStrategy can choose an existing file (property says any order); two concurrently starting downloads of equally named files get the same local path (check-then-create race across the create_directory await).',
  },
+ 'C07': {
+  'text': 'Proof (Z3, quantified lemmas instantiated by E-matching triggers) with one bounded stand-in. Every loop and comprehension of SharesManager.query is given a contract that is checked on an ARBITRARY iteration executed from the real AST (include pieces, wildcard head/rest pieces, matching keys, union generator, item sets, all(matchers), filter loop with the cap); from the contracts, the class invariant of the term map (complete and sound for the live items) and the regex lemma the result is proved sound (every returned item is live and satisfies every include / wildcard / exclude term), capped, and complete whenever the cap was not reached; each early "return [], []" is proved to happen only when no live item can match. The invariant is proved to be established by rebuild_term_map and preserved by _add_item_to_term_map / _build_term_map / _cleanup_term_map / scan_directory_files (items become exactly the scan result of the directory minus its child shared directories), add_shared_directory and remove_shared_directory (items re-created for the innermost owner; partition lemma over an abstract path order: every item is owned by the innermost shared directory containing it, no file twice). get_stats, SearchQuery.parse and matchers_iter are proved element-wise against their specifications. A test suite samples ~25 queries on one 4-file fixture; here terms, pieces, keys, items and directory sets are unbounded.',
+  'design_ref': 'DESIGN.md section 4 / C07',
+  'note': 'Bounded, not proved: the regex lemma linking the two patterns of create_term_pattern to the word split of the term map (exhaustive over paths <= 5 and terms <= 3/4 characters over small alphabets, run natively on the real functions each time). Assumed: weak references of dropped items die at once (A-weak), os.path as an abstract path order, scan_directory as an external function, str.lower vs re.IGNORECASE agreement. Queries without any include/wildcard term return nothing (documented, pinned by the suite): stated as a precondition. Four defects fixed (3e37c6c, c7c4901, 0a8a03d, 6e37640).',
+ },
 }
 
 NA_DEFAULT = 'check not built yet (work in progress; see DESIGN.md section 4 for the planned contracts)'
